@@ -28,3 +28,17 @@ func init() {
 		}
 	})
 }
+
+func init() {
+	if os.Getenv("MPS_DBG2") == "" {
+		return
+	}
+	register("DBG2", propMeta{}, func(c *Ctx, r *Run) {
+		for _, fn := range startFuncs(c) {
+			fmt.Println("SF:", c.FuncName(fn), len(fn.Params))
+			for _, p := range fn.Params {
+				fmt.Println("   param", p.Name(), p.Type(), isKeyMaterialPtr(c, p.Type()))
+			}
+		}
+	})
+}
